@@ -1,7 +1,7 @@
-//! C20: secret-bearing types.  Their Debug rendering contains no encoding of a secret scalar, and
-//! explicit zeroization leaves every secret scalar zero.  (That dropping a value leaves no copy in
-//! the storage it occupied needs raw memory inspection; that part is covered by the Kani harnesses,
-//! not here.)
+//! C20: secret-bearing types.  Their Debug rendering contains no encoding of a secret scalar,
+//! explicit zeroization leaves every secret scalar zero, and dropping a value leaves no copy of its
+//! secret scalars in the storage it occupied (inline bytes inspected after `drop_in_place`; heap
+//! buffers inspected at deallocation time through the allocator hook of alloc_watch.rs).
 
 use frost_core as fc;
 use frost_core::keys::dkg;
@@ -14,7 +14,7 @@ use crate::rng::TestRng;
 use crate::{scn, Scenario};
 
 pub fn scenarios() -> Vec<Scenario> {
-    vec![scn!(scenario_debug_is_redacted), scn!(scenario_zeroize_leaves_zero)]
+    vec![scn!(scenario_debug_is_redacted), scn!(scenario_zeroize_leaves_zero), scn!(scenario_drop_wipes_storage)]
 }
 
 /// every textual form in which the scalar could leak
@@ -158,4 +158,88 @@ pub fn scenario_zeroize_leaves_zero<C: Suite>(rng: &mut TestRng, p: &Params, not
     is_zero(scalar_bytes::<C>(&s.r2.secret_share()), "secret share of dkg::round2::SecretPackage")?;
     s.r2_pkg.zeroize();
     is_zero(s.r2_pkg.signing_share().serialize(), "signing share of dkg::round2::Package")
+}
+
+// ------------------------------------------------------------------------------------------------
+// drop path
+
+/// the in-memory bytes of a scalar (whatever representation the field library uses)
+fn raw_scalar<C: Suite>(s: &Sc<C>) -> Vec<u8> {
+    let n = std::mem::size_of::<Sc<C>>();
+    let p = s as *const Sc<C> as *const u8;
+    // SAFETY: `s` is a live, initialised value of a plain-data scalar type
+    (0..n).map(|i| unsafe { std::ptr::read_volatile(p.add(i)) }).collect()
+}
+
+fn interesting(p: &[u8]) -> bool {
+    p.len() >= 16 && p.iter().filter(|b| **b != 0).count() >= 8
+}
+
+/// Runs the destructor of `value` in place and reports whether any pattern is still present in the
+/// bytes the value occupied.
+fn residue_after_drop<T>(value: T, patterns: &[Vec<u8>]) -> Option<usize> {
+    let mut slot = std::mem::MaybeUninit::new(value);
+    let n = std::mem::size_of::<T>();
+    // SAFETY: the slot holds an initialised T; after drop_in_place it is never used as a T again
+    unsafe { std::ptr::drop_in_place(slot.as_mut_ptr()) };
+    let p = slot.as_ptr() as *const u8;
+    let bytes: Vec<u8> = (0..n).map(|i| unsafe { std::ptr::read_volatile(p.add(i)) }).collect();
+    patterns
+        .iter()
+        .position(|pat| interesting(pat) && pat.len() <= bytes.len() && bytes.windows(pat.len()).any(|w| w == pat.as_slice()))
+}
+
+fn present_before_drop<T>(value: &T, pattern: &[u8]) -> bool {
+    let n = std::mem::size_of::<T>();
+    let p = value as *const T as *const u8;
+    let bytes: Vec<u8> = (0..n).map(|i| unsafe { std::ptr::read_volatile(p.add(i)) }).collect();
+    pattern.len() <= bytes.len() && bytes.windows(pattern.len()).any(|w| w == pattern)
+}
+
+fn drop_check<T>(name: &str, value: T, patterns: &[Vec<u8>]) -> Verdict {
+    // only patterns that are visibly present in the live value can be looked for afterwards
+    let live: Vec<Vec<u8>> = patterns.iter().filter(|p| interesting(p) && present_before_drop(&value, p)).cloned().collect();
+    if live.is_empty() {
+        drop(value);
+        return Ok(());
+    }
+    match residue_after_drop(value, &live) {
+        None => Ok(()),
+        Some(_) => fail(
+            &format!("dropping a {name} leaves no copy of its secret scalars in the storage it occupied"),
+            "storage wiped",
+            "the secret scalar is still readable in the dropped value's bytes",
+        ),
+    }
+}
+
+pub fn scenario_drop_wipes_storage<C: Suite>(rng: &mut TestRng, p: &Params, notes: &mut Notes) -> Verdict {
+    let s = secrets::<C>(rng, p)?;
+    let _ = notes;
+    let share_raw = raw_scalar::<C>(&share_scalar::<C>(s.kp.signing_share())?);
+    let sk_raw = raw_scalar::<C>(&s.sk.clone().to_scalar());
+    let hid = scalar_from_bytes::<C>(&s.nonces.hiding().serialize()).map(|x| raw_scalar::<C>(&x)).unwrap_or_default();
+    let bin = scalar_from_bytes::<C>(&s.nonces.binding().serialize()).map(|x| raw_scalar::<C>(&x)).unwrap_or_default();
+    let r2_raw = raw_scalar::<C>(&s.r2.secret_share());
+    let r2p_raw = raw_scalar::<C>(&share_scalar::<C>(s.r2_pkg.signing_share())?);
+    let ss_raw = raw_scalar::<C>(&share_scalar::<C>(s.secret_share.signing_share())?);
+    let coeffs: Vec<Sc<C>> = s.r1.coefficients();
+    let coeff_raw: Vec<Vec<u8>> = coeffs.iter().map(raw_scalar::<C>).filter(|p| interesting(p)).collect();
+
+    drop_check("SigningKey", s.sk, &[sk_raw])?;
+    drop_check("KeyPackage", s.kp, &[share_raw])?;
+    drop_check("SecretShare", s.secret_share, &[ss_raw])?;
+    drop_check("SigningNonces", s.nonces, &[hid, bin])?;
+    drop_check("dkg::round2::SecretPackage", s.r2, &[r2_raw])?;
+    drop_check("dkg::round2::Package", s.r2_pkg, &[r2p_raw])?;
+    // dkg::round1::SecretPackage keeps its coefficients in a heap buffer: watch what is handed back to the allocator
+    crate::alloc_watch::start(&coeff_raw);
+    drop(s.r1);
+    let (hits, freed) = crate::alloc_watch::stop();
+    check(
+        hits == 0,
+        "dropping a dkg::round1::SecretPackage wipes the heap buffer of its polynomial coefficients before freeing it",
+        "no coefficient in any freed block",
+        format!("{hits} coefficient(s) found in freed memory ({freed} bytes freed)"),
+    )
 }
